@@ -105,6 +105,10 @@ func c19Canon(sn *snode, d *dnode, b *strings.Builder, depth int, sortKids bool)
 			}
 		case ks != nil && ks.kw == "leaf-list":
 			vals := append([]string{}, k.vals...)
+			if len(vals) == 0 {
+				// a leaf-list without entries is the same tree as one without the leaf-list
+				continue
+			}
 			if !ks.ordUser {
 				sort.Strings(vals)
 			}
@@ -345,6 +349,31 @@ func (p *c19) Run(tier string, seed int64, idx int) core.CaseResult {
 					cls = "C19/decoded-tree-does-not-conform/two-cases-of-a-choice"
 				}
 				res.Fail(cls, desc, strings.Join(bad, "\n"))
+			} else {
+				// the decoder returned this tree as valid under the schema: its three encodings decode to it again
+				dt := walkData(tree)
+				dt.name = "data"
+				want := c19CanonStr(root, dt)
+				for _, e2 := range []encoding.EncType{encoding.RFC7951, encoding.JSON, encoding.XML} {
+					b2, pm := c19Encode(ms, e2, dt)
+					d2 := desc + "\n---- the tree it decoded to, encoded as " + encNames[e2] + "\n" + string(b2)
+					if pm != "" {
+						res.Fail("C19/decoded-tree/encode-panic/"+encNames[e2], d2, pm)
+						continue
+					}
+					t2, err2, pm2, st2 := c19Decode(ms, e2, b2, true)
+					res.Ev("decoded_trees_round_tripped", 1)
+					switch {
+					case pm2 != "":
+						res.Fail("C19/decode-panic/"+encNames[e2]+"/"+core.TopRepoFrame(st2), d2, pm2)
+					case err2 != nil:
+						res.Fail("C19/decoded-tree/own-encoding-rejected/"+encNames[e2], d2, err2.Error())
+					default:
+						if got := c19CanonStr(root, walkData(t2)); got != want {
+							res.Fail("C19/decoded-tree/round-trip-differs/"+encNames[e2]+"/"+c19DiffClass(want, got), d2, firstDiff(want, got)+"\n(- decoded tree, + after a round trip)")
+						}
+					}
+				}
 			}
 		}
 	}
